@@ -251,6 +251,12 @@ def keyholderChecks (r : NRef) (port : Nat) (src : String) (d : Bytes) (attack :
     (r1, match verdict with | some e => "FAIL " ++ e | none => "ok")
   | _, _ => (r, "-")
 
+/-- the key material part (`core=…`) of a peer's observation: changes exactly when a handshake replaces the session -/
+def coreOfRaw (raw : Option String) : String :=
+  match raw with
+  | some s => (match s.splitOn "core=" with | _ :: rest :: _ => ((rest.splitOn ",").headD "") | _ => "-")
+  | none => "?"
+
 /-- processing of a received datagram `d` from `src` at node `port`; `tracked`: the datagram is a genuine data datagram -/
 def receiveChecks (r : NRef) (port : Nat) (src : String) (d : Bytes) (attack : Bool) (ires istate : String) : NRef × String :=
   if (ires = "panic" || istate = "" && ires.startsWith "panic") && r.keyholder.any (·.1 = d) then
@@ -294,6 +300,15 @@ def receiveChecks (r : NRef) (port : Nat) (src : String) (d : Bytes) (attack : B
                  | none => false)
              | .error _ => false)
           | _ => false) then some "C02 a handshake datagram carries the node information unsealed although not both ends enabled plain"
+      -- C12: the routes of a peer that stays connected under the same session change only by that peer's own announcements: a datagram from another source,
+      -- or a handshake datagram that does not replace the session (a failed or repeated handshake), leaves its live claims alone
+      else if before.claims.any (fun (q, rg, to) => to ≥ r.now &&
+          (q ≠ src || (d.head? = some 255 && coreOfRaw ((before.peers.find? (fun p => p.addr = q)).map (·.raw)) ≠ "-")) &&
+          (match before.peers.find? (fun p => p.addr = q), after.peers.find? (fun p => p.addr = q) with
+           | some pb, some pa => pb.nodeId = pa.nodeId && coreOfRaw (some pb.raw) = coreOfRaw (some pa.raw)
+           | _, _ => false) &&
+          !(after.claims.any (fun (q', rg', _) => q' = q && rg' = rg))) then
+        some "C12 live routes of a peer that stays connected were dropped by a datagram that neither replaced its session nor was its announcement"
       -- C13: hub and router modes never learn from traffic
       else if !(modeFlags (r.cfgOf port "mode") (r.cfgOf port "dev" = "tap")).1 &&
           after.cache.any (fun (a, p, _) => !(before.cache.any (fun (a', p', _) => a' = a && p' = p))) then
